@@ -165,7 +165,7 @@ class C06(Prop):
                 c.timed_since_until = False
             for _ in range(200):
                 f = lang.gen_formula(rng, c)
-                if 0 < lang.horizon(f) <= 6 and not pastmodel.past_over_future(f) and not (
+                if 0 < lang.horizon(f) <= 6 and not (kind.startswith('ct') and pastmodel.past_over_future(f)) and not (
                         kind.startswith('ct') and lang.ops_of(f) & set(['until', 'unless'])):
                     break
             else:
